@@ -76,6 +76,16 @@ func genC18(seed uint64, tier string) *Scenario {
 		default:
 			sc.TracerCfg = pick(r, nativeTracerCfgs[sc.Tracer])
 		}
+		if r.P(1, 8) {
+			// a sender paying itself: sender and recipient are one account in the tracer's books
+			for i := range sc.Execs[0].Txs {
+				if tx := &sc.Execs[0].Txs[i]; tx.Kind == "call" {
+					tx.To = tx.From
+					tx.Value = hxu(uint64(1 + r.Intn(500)))
+					return sc
+				}
+			}
+		}
 		if (sc.Tracer == "callTracer" || sc.Tracer == "flatCallTracer" || sc.Tracer == "muxTracer" || sc.Tracer == "prestateTracer") && r.Bool() {
 			// structured call trees (logs before calls, failing frames above succeeding ones, creates,
 			// self-destructs) exercise the nesting logic of the call-type tracers far more than random
